@@ -719,6 +719,8 @@ func errorCause(c Case, m *msggen.Message, name string) string {
 		return "unparseable-form"
 	case m.Spec.Encoding == "gzip-bad":
 		return "mislabelled-content-coding"
+	case m.Spec.Encoding == "gzip-padded" || m.Spec.Encoding == "gzip-truncated" || m.Spec.Encoding == "deflate-bad":
+		return "content-coding-fails-mid-stream"
 	case m.Spec.Encoding == "deflate-zlib":
 		return "zlib-deflate"
 	case m.BadQuery:
@@ -1370,7 +1372,7 @@ func matrixExtra(yield func(Case) bool) {
 			c.Msg.Status, c.Msg.Reason, c.Msg.CustomReason = r.code, r.reason, true
 			cs = append(cs, c)
 		}
-		for _, enc := range []string{"x-gzip", "deflate-zlib", "gzip-bad"} {
+		for _, enc := range []string{"x-gzip", "deflate-zlib", "gzip-bad", "gzip-padded", "gzip-truncated", "deflate-bad"} {
 			c := base
 			c.Msg, c.Decode = resSpec, true
 			c.Msg.Encoding = enc
